@@ -719,4 +719,25 @@ theorem wf_calls_noCompile (d : WfDecl) : ∀ op ∈ d.branchOps ++ d.inputOps, 
   simp only [WfDecl.inputOps, WfDecl.branchOps, List.mem_append, List.mem_flatMap, List.mem_map] at hop
   rcases hop with ⟨br, _, rfl⟩ | ⟨n, _, i, _, rfl⟩ | ⟨i, _, rfl⟩ <;> simp [WfIn.op, Op.isCompile]
 
+/-! ### the order in which `Workflow.compile` replays the recorded inputs -/
+
+theorem map_range_getD {α : Type} (l : List α) (d : α) :
+    (List.range l.length).map (fun i => (l[i]?).getD d) = l := by
+  apply List.ext_getElem
+  · simp
+  · intro i h1 h2
+    simp at h1
+    simp [h1]
+
+theorem inputOpsBy_declared (d : WfDecl) :
+    d.inputOpsBy (List.range (d.nodes.length + 1)) = d.inputOps := by
+  have hl : d.groups.length = d.nodes.length + 1 := by simp [WfDecl.groups]
+  unfold WfDecl.inputOpsBy
+  rw [← hl, List.flatMap_def, map_range_getD]
+  simp [WfDecl.groups, WfDecl.inputOps, List.flatMap_def]
+
+theorem lowerBy_declared (chk : Bool) (d : WfDecl) :
+    d.lowerBy chk (List.range (d.nodes.length + 1)) = d.lower chk := by
+  simp [WfDecl.lowerBy, WfDecl.lower, inputOpsBy_declared]
+
 end EinoV.Build
